@@ -1369,18 +1369,24 @@ class Container:
         # (... or less than a thousandth of a stated total, in the total's unit)
         if concentration is not None:
             total_row = index if total_quantity is not None else None
-            for _ in range(200):  # (until the rows agree: two enzymes stated per unit of each other's activity take a while)
-                before = xs.copy()
+            # (all of them at once, from their own rows and the rest of the mixture: enzymes stated as shares of each
+            # other's activity - '0.6 U/U' and '0.399 U/U' next to a trace of a third - cannot be had one after the other)
+            for _ in range(2):
+                small = []
                 for row in range(n):
                     per = Unit.parse_concentration(concentration[row])
                     top = convert_one(solute[row], per[1])
                     minor = total_row is not None and abs(a[total_row][row] * xs[row]) <= 1e-3 * abs(b[total_row])
                     if b[row] == 0 and top and a[row][row] != 0 and \
                             (abs(a[row][row] + top) <= 1e-3 * abs(top) or minor):
-                        xs[row] = -sum(a[row][column] * xs[column] for column in range(n + 1) if column != row) \
-                            / a[row][row]
-                if numpy.allclose(xs, before, rtol=1e-15, atol=0):
-                    break
+                        small.append(row)
+                rest = [column for column in range(n + 1) if column not in small]
+                if small:
+                    try:
+                        xs[small] = numpy.linalg.solve(a[numpy.ix_(small, small)],
+                                                       -a[numpy.ix_(small, rest)] @ xs[rest])
+                    except numpy.linalg.LinAlgError:
+                        break
         if any(x <= 0 for x in xs):
             raise ValueError("Solution is impossible to create.")
         # an amount that vanishes when stored (rounded to the internal precision) is not a solution either
